@@ -48,6 +48,18 @@ CLAIMED = {
     note=("Trusted: lianvc + encoding, z3. Assumed (hereditary, unchecked): frontend output shape (non-empty statement dicts, first key = operation, payload keys not "
           "reserved). LangAnalysis.run is not under contract."),
     design='§4 C03'),
+ 'C06': dict(
+    text=("Proof (partial: the dataflow equations, not the fixpoint): on the real code, for all frames, definition tables, CFG neighbourhoods and rounds: BitVectorManager."
+          "{kill_bit_ids, gen_bit_ids} are set difference / union on the same set object, add_bit_id keeps the two position tables inverse; update_current_symbol_bit yields "
+          "OUT == {d} U (IN minus all definitions of d's symbol) and keeps defined_symbols[s] == {d in all_symbol_defs | d.symbol_id == s}; analyze_reachable_symbols (up to the "
+          "change notification) sets IN to the union of OUT over exactly the selected predecessors (all; at a loop header the non-back-edge ones in round one, the back-edge ones "
+          "afterwards) and OUT to the fold of that transfer over the defined symbols (kill, pass-through, gen clauses); check_reachable_symbol_defs returns the available "
+          "definitions of the used symbol or one external node; add_status_with_symbol_id_sync never overwrites the symbol id recorded for a compiler temporary. "
+          "The schedule is NOT proved: analyze_stmts' final pop() is incoherent with its peek() (known finding F8, replayed on the real code every run) and the bounded rounds do "
+          "not guarantee the fixpoint, so the loop-free 'exactly the classical solution' sentence and the soundness sentence for whole methods are not decided."),
+    note=("Trusted: lianvc + encoding, z3; CFG predecessor/edge-kind queries as uninterpreted functions (get_graph_edge_weight: bounded stand-in); symbol space lookups uninterpreted; "
+          "graph writes opaque. Two genuine defects repaired by fix: commits (edge kinds of MultiDiGraphs, skipped kill), one recorded (F8)."),
+    design='§4 C06'),
  'C13': dict(
     text=("Proof (partial: the bounding invariants only; termination and running time are NOT decided): on the real source, for all frames, worklists and counter "
           "tables: P2PrelimSemanticAnalysis.analyze_stmts lets a statement reach compute_stmt_states only while its round counter is below its bound "
